@@ -120,7 +120,7 @@ func renderReplay(tmplPath string, values map[string]string, obName string) (str
 			return d
 		},
 	}
-	t, err := template.New("replay").Funcs(funcs).Parse(string(b))
+	t, err := template.New("replay").Delims("<<", ">>").Funcs(funcs).Parse(string(b))
 	if err != nil {
 		return "", err
 	}
